@@ -54,6 +54,8 @@ impl Compression {
                 drop(o.finish()?);
                 drop(i); // needs to happen before remove_file call on Windows
 
+                #[cfg(feature = "verif_hooks")]
+                crate::verif_hooks::rotate_point(u32::MAX - 1)?;
                 fs::remove_file(src)
             }
             #[cfg(feature = "zstd")]
@@ -67,6 +69,8 @@ impl Compression {
                 io::copy(&mut i, &mut o)?;
                 drop(o.finish()?);
                 drop(i);
+                #[cfg(feature = "verif_hooks")]
+                crate::verif_hooks::rotate_point(u32::MAX - 1)?;
                 fs::remove_file(src)
             }
         }
